@@ -1116,6 +1116,9 @@ func (in *Interp) callBuiltin(b *ssa.Builtin, args []Value, site ssa.CallInstruc
 		case string:
 			return in.B.Const(in.WordBits, uint64(len(x)))
 		case Slice:
+			if x.Len < 0 {
+				in.unmodelled("len of the bytes of a symbolic string")
+			}
 			return in.B.Const(in.WordBits, uint64(x.Len))
 		case Map:
 			if x.M == nil {
@@ -1440,6 +1443,9 @@ func (in *Interp) indexAddr(fr *frame, x *ssa.IndexAddr) Value {
 	idx := in.get(fr, x.Index).(*sym.Term)
 	switch b := base.(type) {
 	case Slice:
+		if b.Len < 0 {
+			in.unmodelled("index into the bytes of a symbolic string")
+		}
 		i := in.concreteIndex(idx, b.Len, x.Index.Type())
 		return Ptr{b.Arr.Kids[b.Off+i]}
 	case Ptr:
